@@ -36,10 +36,22 @@ if "orders" in req:
     for order in itertools.permutations(req["orders"]["presets"]):
         for p in order:
             vals = []
+            # a whole-range lookup first whose result the caller overwrites (a preset lookup returns a fresh array that
+            # belongs to the caller): later answers must not change
+            try:
+                whole = G.get_radii(p, np.array(zs))
+                whole[...] = 777.0
+            except Exception:
+                pass
             for z in zs:
                 try:
-                    x = float(G.get_radii(p, np.array([z]))[0])
+                    r1 = G.get_radii(p, np.array([z]))
+                    x = float(r1[0])
                     vals.append(None if math.isnan(x) else x.hex())
+                    try:
+                        r1[...] = -5.0
+                    except Exception:
+                        pass
                 except Exception as e2:
                     vals.append("ERR:" + type(e2).__name__)
             rows.append({"order": list(order), "preset": p, "values": vals})
